@@ -44,7 +44,7 @@ def write_cfg(work, name, spec, invariants, constants=None, post="Accepted", ali
     if constants:
         lines.append("CONSTANTS")
         for k, v in constants.items():
-            lines.append("  %s = %s" % (k, v))
+            lines.append("  %s %s" % (k, v) if str(v).startswith("<-") else "  %s = %s" % (k, v))
     for i in invariants:
         lines.append("INVARIANT " + i)
     for p in props or []:
@@ -144,23 +144,101 @@ def summarize_trace(path, ev, nontrivial_rule):
 # random families: (profile, quick count, thorough count)
 
 RESOLVER = {
-    "C01": {"inv": ["C01"], "reps": (3, 6),
+    "C01": {"inv": ["C01"], "reps": (3, 6), "family": "C01",
             "random": [("general", 2500, 25000), ("wild", 1500, 15000), ("single", 800, 8000), ("multi", 800, 8000),
                        ("redef", 400, 5000), ("convert", 400, 5000)]},
-    "C02": {"inv": ["C02"], "reps": (3, 6),
+    "C02": {"inv": ["C02"], "reps": (3, 6), "family": "C02",
             "random": [("general", 2500, 25000), ("multi", 2000, 20000), ("nosub", 1000, 10000), ("convert", 500, 6000)]},
-    "C03": {"inv": ["C03"], "reps": (4, 10), "random": [("general", 1500, 15000), ("wild", 1000, 10000)]},
-    "C04": {"inv": ["C04"], "reps": (3, 6),
+    "C03": {"inv": ["C03"], "reps": (4, 10), "family": "C03", "random": [("general", 1500, 15000), ("wild", 1000, 10000)]},
+    "C04": {"inv": ["C04"], "reps": (3, 6), "family": "C04",
             "random": [("fail", 3500, 35000), ("wild", 1000, 10000), ("redef", 300, 3000)]},
-    "C05": {"inv": ["C05"], "reps": (5, 12),
+    "C05": {"inv": ["C05"], "reps": (5, 12), "family": "C05",
             "random": [("single", 2500, 25000), ("multi", 1500, 15000), ("general", 1000, 10000)]},
-    "C06": {"inv": ["C06"], "reps": (3, 6),
+    "C06": {"inv": ["C06"], "reps": (3, 6), "family": "C06",
             "random": [("wild", 3000, 30000), ("general", 1500, 15000), ("multi", 1000, 10000), ("redef", 500, 5000),
                        ("convert", 500, 5000)]},
-    "C08": {"inv": ["C08"], "reps": (3, 6), "random": [("redef", 4000, 40000)]},
-    "C13": {"inv": ["C13"], "reps": (2, 4),
+    "C07": {"inv": ["C07"], "reps": (25, 100), "family": "C07", "random": [("general", 300, 3000)], "model": (200, 2000)},
+    "C08": {"inv": ["C08"], "reps": (3, 6), "family": "C08", "random": [("redef", 3000, 40000)]},
+    "C13": {"inv": ["C13"], "reps": (2, 4), "family": "C13",
             "random": [("general", 2500, 25000), ("nosub", 1500, 15000), ("multi", 1000, 10000)]},
 }
+
+
+def eligible_for_model(s):
+    """Scenario features the Resolver model does not cover (they are still judged on real traces)."""
+    return not s.get("gens") and not s.get("bad") and not any(c.get("nilOut") for c in s["convs"])
+
+
+def canon(kind, log, inputs, valtok):
+    return json.dumps([kind, log, sorted(set(json.dumps(x, sort_keys=True) for x in inputs)), valtok])
+
+
+def parse_model_output(out):
+    """OBS / SCN lines printed by TLC (MC_Resolver!EmitObs / EmitScn)."""
+    import re
+    model, scns = {}, []
+    for l in out.splitlines():
+        if l.startswith('<<"OBS"') or l.startswith('<<"SCN"'):
+            m = re.match(r'<<"(OBS|SCN)", "(.*)">>$', l.strip())
+            if not m:
+                continue
+            o = json.loads(json.loads('"' + m.group(2) + '"'))
+            if m.group(1) == "SCN":
+                scns.append(o)
+            else:
+                model.setdefault(o["sid"], set()).add(
+                    canon(o["kind"], [[e["fn"], e["args"], e["outs"]] for e in o["log"]], o["inputs"], o["valtok"]))
+    return model, scns
+
+
+def real_observations(trace_path):
+    real = {}
+    cur = None
+    for l in open(trace_path):
+        e = json.loads(l)
+        if e["ev"] == "reset":
+            cur = {"sid": e["sid"], "log": []}
+        elif e["ev"] == "exec" and e["phase"] == 1:
+            cur["log"].append([e["fn"], e["args"], e["outs"]])
+        elif e["ev"] == "redef":
+            kind = "redef" if e["ok"] else ("unsat" if e["detail"].startswith("unsat") else "redeferr")
+            real.setdefault(cur["sid"], set()).add(canon(kind, [], e["inputs"], 0))
+        elif e["ev"] == "ret" and e["phase"] == 1:
+            real.setdefault(cur["sid"], set()).add(canon(e["kind"], cur["log"], [], e["valtok"] if e["kind"] == "ok" else 0))
+    return real
+
+
+def model_stage(w, prop, module, cfgname, invariants, constants, ev, timeout=1500):
+    """Exhaustive TLC run of the Resolver over the scenario set: design-level invariants over all
+    tie-breaks + emission of the outcome set of every scenario."""
+    write_cfg(w, cfgname, "Spec", invariants + ["EmitObs", "EmitScn"], constants=constants, post=None, alias=None)
+    res = w.tlc(module, cfgname, workers=vlib.NCPU, timeout=timeout)
+    ev.add_tlc("resolver-model", res, "model_checking")
+    model, scns = parse_model_output(res["out"])
+    if not res["ok"] and not res["violated"]:
+        raise Infra("Resolver model checking did not complete:\n" + res["out"][-3000:])
+    return res, model, scns
+
+
+def conformance(model, real, ev):
+    """Direction B: is every observation of the real code one the model allows?  Drift is reported
+    in the evidence and triggers amplification; by itself it is never a violation."""
+    drift, equal, subset, toobig = [], 0, 0, 0
+    for sid, ms in model.items():
+        if any('"toobig"' in x for x in ms):
+            toobig += 1
+            continue
+        rs = real.get(sid, set())
+        if not rs <= ms:
+            drift.append(sid)
+        elif rs == ms:
+            equal += 1
+        else:
+            subset += 1
+    ev.cov["conformance"] = {"scenarios_with_model_outcome_set": len(model), "real_equals_model": equal,
+                             "real_subset_of_model": subset, "drift": len(drift), "drift_sids": drift[:20],
+                             "model_too_big": toobig}
+    return drift
 
 
 def run_resolver(prop, tier, seed, keep=False):
@@ -178,6 +256,18 @@ def run_resolver(prop, tier, seed, keep=False):
             w.run_drive(["gen", "-profile", profile, "-n", str(n), "-seed", str(seed * 7919 + sid0), "-sid0", str(sid0), "-out", out])
             allscn += json.load(open(w.path(out)))
             sid0 += n
+        # ---- model stage: all tie-breaks of (a slice of) the scenarios in the faithful Resolver model
+        nmodel = spec.get("model", (400, 4000))[ti]
+        mscn = [x for x in allscn if eligible_for_model(x)][:nmodel]
+        vlib.write_json(w.path("scn_model.json"), mscn)
+        fam = spec.get("family")
+        consts = {"ScnFile": '"scn_model.json"', "Bugs": "{}", "Scenarios": "<- AllScenarios",
+                  "Family": '"%s"' % (fam or "none"), "Size": "1" if ti == 0 else "2"}
+        mres, model, famscn = model_stage(w, prop, "MC_Family.tla", "MC_%s.cfg" % prop,
+                                          ["M_" + i for i in spec["inv"]], consts, ev)
+        allscn += famscn
+        ev.cov["exhaustive"] = bool(fam)
+        ev.cov["family"] = {"name": fam, "scenarios": len(famscn)}
         vlib.write_json(w.path("scenarios.json"), allscn)
         reps = spec["reps"][ti]
         r = w.run_drive(["run", "-in", "scenarios.json", "-reps", str(reps), "-seed", str(seed), "-out", "trace.ndjson"])
@@ -187,6 +277,20 @@ def run_resolver(prop, tier, seed, keep=False):
                         "non-trivial = at least one user function body was executed" %
                         (", ".join("%s:%d" % (p, (a, b)[ti]) for p, a, b in spec["random"]), reps))
         rc = trace_validate(w, prop, spec["inv"], "trace.ndjson", ev)
+        # ---- conformance of the real observations with the model's outcome sets
+        drift = conformance(model, real_observations(w.path("trace.ndjson")), ev)
+        if drift and rc == 0:
+            # amplification: the drifting scenarios are re-run 20x more often and re-judged
+            amp = [x for x in allscn if x["sid"] in set(drift)]
+            vlib.write_json(w.path("amp.json"), amp)
+            w.run_drive(["run", "-in", "amp.json", "-reps", str(reps * 20), "-seed", str(seed + 1), "-out", "amp.ndjson"])
+            ev.cov["conformance"]["amplified_executions"] = len(amp) * reps * 20
+            rc = trace_validate(w, prop, spec["inv"], "amp.ndjson", ev, label="amplified")
+        if mres["violated"] and rc == 0:
+            # a design-level counterexample that the real code did not exhibit: no verdict
+            ev.cov["unreproduced_model_cex"] = mres["violated"]
+            ev.write()
+            raise Infra("the model violates %s but the real code did not reproduce it:\n%s" % (mres["violated"], mres["out"][-2500:]))
         ev.doc["assumptions"] = [
             "the Go harness builds the functions and records argument/result tokens faithfully (harness/scn)",
             "map-iteration orders of the real code are sampled by repetition; all orders are covered only in the model",
